@@ -226,6 +226,13 @@ class C18(Prop):
                     want = None
             if obs.get('res') != want or ('exc' in obs) != (want is None):
                 return 'port accepted/refused contrary to 1-65535'
+        elif k == 'parse':
+            s = fp(case['s'])
+            if isinstance(s, str) and 'exc' not in obs and case['df'] == 'none':
+                addr = s.split('://', 1)[1] if (case['what'] == 'service' and '://' in s) else s
+                if '[' not in addr and addr.count(':') != 1:
+                    return ('an address text with %d colons outside brackets was accepted without defaults: what follows the host must be '
+                            'exactly one colon and a port' % addr.count(':'))
         elif k in ('netaddr', 'service'):
             host = fp(case['host'])
             valid = True
